@@ -186,7 +186,33 @@ func main() {
 				}
 			}
 		}
-	case "one":
-		// c02 one -tree <sexp unsupported> : placeholder for replay via corpus of (seed,index)
+	case "replay":
+		// c02 replay -in F -out G : F holds case lines as written by gen; the implementation is re-run
+		// on the (tree, payload, deny) of each line
+		data, err := os.ReadFile(a["in"])
+		if err != nil {
+			fmt.Fprintln(os.Stderr, err)
+			os.Exit(2)
+		}
+		for _, line := range strings.Split(string(data), "\n") {
+			if strings.TrimSpace(line) == "" {
+				continue
+			}
+			x, err := common.ParseSexp(line)
+			if err != nil || x.Head() != "c02" {
+				fmt.Fprintln(os.Stderr, "bad case line")
+				os.Exit(2)
+			}
+			tree := plan.FromSexp(x.List[1])
+			payload := plan.JSONText(x.List[2])
+			var deny map[string]bool
+			if len(x.List[3].List) > 1 {
+				deny = map[string]bool{}
+				for _, d := range x.List[3].List[1:] {
+					deny[string(d.Str)] = true
+				}
+			}
+			out.Line(observe(tree, payload, deny, []string{"replay"}))
+		}
 	}
 }
